@@ -58,6 +58,7 @@ var c14Progs = []c14Prog{
 	{"keep-l=1", "  metric_relabel_configs:\n  - {source_labels: [l], regex: \"1\", action: keep}\n", func(s c14Sample) bool { return s.L == "1" }},
 	{"drop-m=x", "  metric_relabel_configs:\n  - {source_labels: [m], regex: \"x\", action: drop}\n", func(s c14Sample) bool { return s.M != "x" }},
 	{"labeldrop-l", "  metric_relabel_configs:\n  - {regex: \"l\", action: labeldrop}\n", func(s c14Sample) bool { return true }},
+	{"rename-by-label-then-drop-name", "  metric_relabel_configs:\n  - {source_labels: [l], regex: \"1\", target_label: __name__, replacement: \"renamed\"}\n  - {source_labels: [__name__], regex: \"renamed\", action: drop}\n", func(s c14Sample) bool { return s.L != "1" }},
 	{"drop-b-then-keep-l", "  metric_relabel_configs:\n  - {source_labels: [__name__], regex: \"b\", action: drop}\n  - {source_labels: [l], regex: \"1|2\", action: keep}\n", func(s c14Sample) bool { return s.Name != "b" && s.L != "" }},
 }
 
